@@ -42,6 +42,31 @@ def build_larch(ops):
     return a, None
 
 
+def larch_after_errors(ops):
+    """a builder object that keeps being used after a call was rejected: (indices of the rejected calls, str(arch) at the end);
+    each rejected call must leave the definition as it was"""
+    from .impl import LayeredArchitecture
+
+    a = LayeredArchitecture()
+    rejected = []
+    for i, op in enumerate(ops):
+        try:
+            if op[0] == "with":
+                a.with_layer()
+            elif op[0] == "layer":
+                a.layer(op[1])
+            elif op[0] in ("cms", "cml"):
+                a.containing_modules(op[1])
+            elif op[0] == "rx":
+                a.have_modules_with_names_matching(op[1])
+        except Exception:  # noqa: BLE001
+            rejected.append(i)
+    try:
+        return rejected, str(a)
+    except Exception as e:  # noqa: BLE001
+        return rejected, "STR-ERR:" + type(e).__name__
+
+
 def impl_larch(ops) -> str:
     a, err = build_larch(ops)
     if err:
